@@ -247,6 +247,20 @@ pub fn check(case: &Case, avoid_empty: bool) -> Outcome {
     if case.cells.iter().any(|c| c.t.contains("nam_a") || c.t.contains("nam_rng")) {
         o = o.label("uses-defined-name");
     }
+    let whole_band = |t: &str| -> bool {
+        // `A:A`, `Sheet2!C:C`, `3:3`
+        t.split(|ch: char| ch == '(' || ch == ',' || ch == ')' || ch == '!').any(|tok| match tok.split_once(':') {
+            Some((l, r)) => {
+                !l.is_empty()
+                    && l == r
+                    && (l.chars().all(|ch| ch.is_ascii_uppercase()) || l.chars().all(|ch| ch.is_ascii_digit()))
+            }
+            None => false,
+        })
+    };
+    if case.cells.iter().any(|c| whole_band(&c.t)) {
+        o = o.label("uses-whole-column-or-row-range");
+    }
 
     let head = |p: &Pos| kit::formula_head(texts.get(p).copied().unwrap_or("?"));
 
@@ -805,10 +819,32 @@ fn build_case(raw: &Raw, avoid_empty: bool) -> Case {
                 a
             }
         };
+        // a whole column / whole row of a candidate cell (SUM clamps such ranges to the used
+        // dimension of the sheet the range lives on)
+        let band_ref = |sel: u16| -> Option<String> {
+            if cand.is_empty() {
+                return None;
+            }
+            let j = cand[sel as usize % cand.len()];
+            let (s, r, c) = pos(j);
+            let column = (sel / 7) % 2 == 0;
+            let (r1, c1, r2, c2) = if column { (1, c, ROWS, c) } else { (r, 1, r, COLS) };
+            let self_inside = s == me.s && me.r >= r1 && me.r <= r2 && me.c >= c1 && me.c <= c2;
+            if (dag && self_inside) || !allowed(rect_max_prio(s, r1, c1, r2, c2)) {
+                return None;
+            }
+            let a = if column { format!("{0}:{0}", kit::col_name(c)) } else { format!("{r}:{r}") };
+            Some(if s != me.s || me.qualify { format!("Sheet{}!{}", s + 1, a) } else { a })
+        };
         let nm1 = || if allowed(nm1_prio) { "nam_a".to_string() } else { "3".to_string() };
         let nm2 = || if allowed(nm2_prio) { "nam_rng".to_string() } else { range_ref(me.sel[2]) };
         let (a, b, c3) = (cell_ref(me.sel[0]), cell_ref(me.sel[1]), cell_ref(me.sel[2]));
-        let rg = range_ref(me.sel[0]);
+        let mut rg = range_ref(me.sel[0]);
+        if matches!(if raw.strict { me.kind % 13 } else { me.kind }, 5 | 6) && me.sel[1] % 5 == 0 {
+            if let Some(b) = band_ref(me.sel[0]) {
+                rg = b;
+            }
+        }
         let k = me.k as i32;
         let kind = if raw.strict { me.kind % 13 } else { me.kind };
         let t = match kind {
@@ -961,12 +997,12 @@ pub fn run(ctx: &Ctx) {
     ctx.assume("COUNT is placed in the absorbing profile: it ignores error values in references (as in Excel), so it does not propagate #CIRC!");
     ctx.assume("workbooks with more than 96 non-cyclic formula cells (long chains) get the local check on an evenly spread sample of 96 cells including both ends");
     ctx.assume("chains are evaluated on the driver's 512 MiB worker stacks; depth 3000 was verified to fit; a stack overflow at larger depths / smaller stacks cannot be caught in-process and is reported separately (see notes)");
-    ctx.assume("CSE array formulas and full-column/row ranges are not generated here (cost; CSE self-reads are a listed finding, replay only)");
+    ctx.assume("CSE array formulas are not generated here (CSE self-reads are a listed finding, replay only); whole-column / whole-row ranges are generated inside SUM only (the other aggregations walk all 1,048,576 rows)");
     ctx.assume("spill-readers campaign: anchors themselves are C31's business; only plain formula cells are checked; workbooks in which an array depends on its own spill area, or in which two anchors form a cycle (restart budget exhausted, listed under C07/C31), are skipped");
     ctx.note("stack depth probe (child process, this build profile): a forward chain A1=A2+1,... evaluates with 3000 cells in 1 s on a 512 MiB stack and 30000 cells in 3 s; it aborts the process with 'stack overflow' at 1000 cells on a 2 MiB thread stack (500 still fit), at 500 cells on 1 MiB (300 fit) and at 5000 cells on the 8 MiB main-thread stack (2000 fit); see the listed finding C05:stack-overflow:long-forward-reference-chain");
     ctx.note("cost observation: a formula that mentions a defined name is classified as dynamic (spill anchor); on a cycle of n such formulas Model::evaluate re-orders and restarts until its n*n+1 budget is exhausted: 28 cells take 24 ms (23 us without the name), 300 cells about 30 s per evaluate(); closed chains in the campaign avoid the name link for this reason; the restart loop is also cubic on an acyclic forward chain of such formulas (1600 cells: 47-376 s per case), so chains that use the name link are capped at 120 cells");
     let (cases, cells, chains, chain_n, spills) = match ctx.tier {
-        Tier::Quick => (2500, 60, 64, 300, 5000),
+        Tier::Quick => (60000, 60, 256, 300, 40000),
         Tier::Thorough => (120000, 60, 1200, 3000, 300000),
     };
     let enc = |c: &Case| serde_json::to_value(c).unwrap_or(Value::Null);
